@@ -17,6 +17,7 @@ package tagexpr
 import (
 	"context"
 	"math"
+	"reflect"
 )
 
 // --------------------------- Operator ---------------------------
@@ -102,8 +103,13 @@ func (re *remainderExprNode) Run(ctx context.Context, currField string, tagExpr 
 	if v1 == 0 {
 		return math.NaN()
 	}
+	// the remainder is taken on integers: a divisor like 0.5 truncates to zero
+	i1 := int64(v1)
+	if i1 == 0 {
+		return math.NaN()
+	}
 	v0, _ := toFloat64(re.leftOperand.Run(ctx, currField, tagExpr), true)
-	return float64(int64(v0) % int64(v1))
+	return float64(int64(v0) % i1)
 }
 
 type equalExprNode struct{ exprBackground }
@@ -117,7 +123,7 @@ func newEqualExprNode() ExprNode { return &equalExprNode{} }
 func (ee *equalExprNode) Run(ctx context.Context, currField string, tagExpr *TagExpr) interface{} {
 	v0 := ee.leftOperand.Run(ctx, currField, tagExpr)
 	v1 := ee.rightOperand.Run(ctx, currField, tagExpr)
-	if v0 == v1 {
+	if interfaceEqual(v0, v1) {
 		return true
 	}
 	if s0, ok := toFloat64(v0, false); ok {
@@ -141,6 +147,18 @@ func (ee *equalExprNode) Run(ctx context.Context, currField string, tagExpr *Tag
 		return v1 == nil
 	}
 	return false
+}
+
+// interfaceEqual reports v0 == v1 and is false, instead of panicking, for operands whose
+// dynamic type is not comparable (slices, maps, functions).
+func interfaceEqual(v0, v1 interface{}) bool {
+	if v0 != nil && !reflect.TypeOf(v0).Comparable() {
+		return false
+	}
+	if v1 != nil && !reflect.TypeOf(v1).Comparable() {
+		return false
+	}
+	return v0 == v1
 }
 
 type notEqualExprNode struct{ equalExprNode }
